@@ -40,6 +40,9 @@ type Token struct {
 	// boundary listener token
 	BoundaryOf *Req
 	dead       bool
+	// Locs shadows the engine's bookkeeping of known finding C05-F1 (see
+	// shadow.go): the nodes the engine may have filed this token under.
+	Locs []string
 }
 
 // Req is an outstanding task request.
@@ -89,6 +92,9 @@ type M struct {
 	scopes  []*Scope
 	// EarlyFired counts inclusive joins fired by the early (BPMN) rule on request of the driver.
 	EarlyFired int
+	// HeldBack: at the end of some step an inclusive gateway held a token
+	// that the BPMN rule would have released (the property allows both).
+	HeldBack bool
 	// StuckTokens are parked forever (gateway without effective flow).
 	StuckTokens []*Token
 	// AllEnds accumulates every end event reached, AllFlows every flow taken.
@@ -116,6 +122,7 @@ type M struct {
 	// tokens in the host the first answer closes it for the others too
 	hostGate  map[string]bool
 	rootFired map[string]bool // start events fired so far (StartOnly)
+	sh        shadow
 }
 
 // New creates the model for a program with initial variables.
@@ -141,6 +148,7 @@ func (m *M) newToken(s *Scope, flow, node string) *Token {
 	t := &Token{ID: m.nextTok, Scope: s, Flow: flow, Node: node}
 	s.live++
 	m.tokens = append(m.tokens, t)
+	m.born(t, node)
 	return t
 }
 
@@ -224,6 +232,9 @@ func (m *M) finish() Obs {
 	m.AllLandmarks = append(m.AllLandmarks, o.Landmarks...)
 	m.AllErrors = append(m.AllErrors, o.Errors...)
 	m.obs = nil
+	if !m.HeldBack && len(m.AmbiguousJoins()) > 0 {
+		m.HeldBack = true
+	}
 	return o
 }
 
@@ -262,11 +273,13 @@ func (m *M) emit(t *Token, outs []*gen.Flow) (emitted []*Token) {
 		if i == 0 {
 			t.Flow, t.Node = f.ID, f.Dst
 			t.Group = 0
+			m.passed(t, f.Src)
 			m.queue = append(m.queue, t)
 			emitted = append(emitted, t)
 		} else {
 			nt := m.newToken(t.Scope, f.ID, f.Dst)
 			nt.Cohort = t.Cohort
+			m.born(nt, f.Src)
 			m.queue = append(m.queue, nt)
 			emitted = append(emitted, nt)
 		}
@@ -283,11 +296,13 @@ func (m *M) run() {
 				continue
 			}
 			m.arrive(t)
+			m.shadowStep()
 		}
 		// Inclusive joins are evaluated only when nothing else can move.
 		if !m.fireInclusiveJoins() {
 			return
 		}
+		m.shadowStep()
 	}
 }
 
@@ -341,6 +356,7 @@ func (m *M) arrive(t *Token) {
 			}
 			if !used[pt.Flow] {
 				used[pt.Flow] = true
+				m.merged(t, pt)
 				m.kill(pt)
 			} else {
 				keep = append(keep, pt)
@@ -356,6 +372,7 @@ func (m *M) arrive(t *Token) {
 		// every inclusive gateway applies the join rule, also with a single
 		// incoming flow (a sibling of the fork may still be on its way to end)
 		s.incWait[n.ID] = append(s.incWait[n.ID], t)
+		m.parked(t, n.ID)
 	case gen.KSub:
 		m.hostActivated[n.ID] = true
 		inner := m.newScope(n.Inner, s, n, t)
@@ -436,6 +453,7 @@ func (m *M) incSplit(t *Token, n *gen.Node) {
 		}
 	}
 	m.nextCoh++
+	m.newCohort(m.nextCoh, t, n.ID)
 	for _, e := range m.emit(t, outs) {
 		e.Cohort = m.nextCoh
 	}
